@@ -352,7 +352,7 @@ func phaseConc(c *ctx) {
 
 	// (2) linearizability: histories run one at a time (they want the cores);
 	// the checker runs behind them on a small pool
-	nLin := map[string]int{"cache": r.N(130, 4000), "segment": r.N(70, 2000), "sync": r.N(40, 1200)}
+	nLin := map[string]int{"cache": r.N(130, 900), "segment": r.N(70, 450), "sync": r.N(40, 300)}
 	checkCh := make(chan *linResult, 64)
 	var cwg sync.WaitGroup
 	for w := 0; w < 3; w++ {
